@@ -112,6 +112,26 @@ def rule_state(ctx, R):
                 if isinstance(o, tuple) and o[0] == "const" and isinstance(o[2], str):
                     consts.add(o[2])
     R.check("clear" in consts, "state:clear_keyword", "the keyword `clear` is recognised")
+    # ... and `clear` does reset: on the edge where the trimmed line equals "clear", the fresh state is assigned before
+    # the next prompt, and only there
+    from .util import dominating_edge_labels
+    evc = Events(b, fb, roles=roles)
+    clear_edges = []
+    for gb, blk in enumerate(b.blocks):
+        tt = blk["term"]
+        if tt["k"] == "switch" and not blk["cleanup"]:
+            for s_ in cfg.succ[gb]:
+                lab = evc.generic_edge(gb, tt, s_) or ""
+                if "K'clear'" in lab and "str::trim(" in lab and lab.endswith("=1"):
+                    clear_edges.append((gb, s_))
+    resets = []
+    for d in vars_.defs.get(sl, []):
+        kind, db, di, payload = d
+        if db in loop and ((kind == "call" and callee_name(payload["f"], fb) == NEW) or (kind == "assign" and org.of_rvalue(payload["r"], db, di) == ("call", NEW, ()))):
+            resets.append(db)
+    outside_ = [x for x in range(len(b.blocks)) if x not in loop]
+    ok = len(clear_edges) == 1 and bool(resets) and all(not reaches_without(cfg, [head], rb, cut_edges=clear_edges) for rb in resets) and not reaches_without(cfg, [clear_edges[0][1]], [head], cut_blocks=resets + outside_)
+    R.check(ok, "state:clear_resets", "`clear` (and nothing else) replaces the session state by a fresh one before the next prompt (clear edges %d, resets %d)" % (len(clear_edges), len(resets)), b.blocks[resets[0]]["term"]["span"]["at"] if resets else b.span)
     # commands of a line are executed in order: execute is called inside a for-loop over the parsed line
     for bi, t in execs:
         rs = [roles.of_operand(a, bi) for a in t["args"]]
@@ -179,7 +199,14 @@ def rule_eofmark(ctx, R, body_name=None):
         by_eof = any("io::read_line_from" in l and ("K''" in l or "is_empty" in l) and "trim" not in l and l.endswith("=1") for l in labs)
         by_cmd = any("K'exit'" in l and l.endswith("=1") for l in labs)
         R.check(by_eof or by_cmd, "eofmark:exit_guard", "the prompt loop exits only when the line read is empty (end of input) or is the `exit` command: %s" % [l[-50:] for l in labs if "read_line_from" in l][:3], b.blocks[x]["term"]["span"]["at"])
+    # ... and end of input does end the session: from the end-of-input edge the exit cannot be avoided (a loop that
+    # went on would read the same end of input for ever)
+    heads_ = [h for _, h in cfg.back_edges()]
+    for e in uses_empty:
+        R.check(not reaches_without(cfg, [e[1]], heads_ + list(cfg.returns) + reads, cut_blocks=exits), "eofmark:eof_exits", "end of input (an empty untrimmed line) ends the session on every path (no way back to the prompt)", b.blocks[e[0]]["term"]["span"]["at"])
     if not uses_empty:
+        eofs_ = [e for e in eof_edges if e[2].endswith("=1")]
+        R.check(not eofs_, "eofmark:eof_exits", "the test for end of input leads to the exit (found the test, but no exit behind it: the prompt would be repeated for ever at end of input)", b.blocks[eofs_[0][0]]["term"]["span"]["at"] if eofs_ else None)
         R.ok("eofmark:not_used", "the prompt loop does not take the untrimmed empty string as end of input; nothing to require of the reader")
         return
     R.ok("eofmark:used", "the prompt loop leaves on an empty (untrimmed) line: %s" % uses_empty[0][2][:100], b.blocks[uses_empty[0][0]]["term"]["span"]["at"])
